@@ -18,7 +18,7 @@ Init == l = 1 /\ T = <<>> /\ G = NoG
 Next == /\ l <= Len(Trace) /\ l' = l + 1
         /\ LET e == Trace[l] IN
              IF e.ev = "case" THEN T' = e.tree /\ G' = InitG(e.tree, e.id)
-             ELSE /\ T' = T /\ G' = Obs(G, T, e)
+             ELSE /\ T' = T /\ G' = (IF e.ev = "burst" THEN ObsBurst(G, T, e) ELSE Obs(G, T, e))
                   /\ (G'.bad # "" /\ G.bad = "") => PrintT(<<"BAD", G.id, l, G'.bad>>)
 Spec == Init /\ [][Next]_vars
 HW == TLCSet(1, Max2(l, TLCGet(1)))
